@@ -54,8 +54,23 @@ def run_deductive(functions, tier):
             jobs.append((qn, variant, timeout_ms))
     if not jobs:
         return []
-    with mp.Pool(min(16, len(jobs))) as pool:
-        return pool.map(_verify_one, jobs, chunksize=1)
+    # one process per function; a hard wall-clock limit per function (a stuck solver must not hang the check: it becomes a
+    # checker error / undecided, never a verdict)
+    limit = 900 if tier == "quick" else 5400
+    pool = mp.Pool(min(16, len(jobs)))
+    try:
+        asyncs = [(job, pool.apply_async(_verify_one, (job,))) for job in jobs]
+        out = []
+        t_end = time.time() + limit
+        for job, a in asyncs:
+            try:
+                out.append(a.get(timeout=max(1.0, t_end - time.time())))
+            except mp.TimeoutError:
+                out.append(dict(function=job[0], variant=job[1], error="checker timeout: verification of this function exceeded %d s" % limit,
+                                obligations=[], canaries=[], trusted=[], inlined=[], used_contracts=[], loops_cut=[], paths=0, wall_s=limit))
+        return out
+    finally:
+        pool.terminate()
 
 
 def run_bounded(pid, tier, seed):
